@@ -358,14 +358,7 @@ func (c cfgSub) cpy(ctx context) value {
 }
 
 func (c cfgSub) SetContext(ctx context) {
-	if c.c.ctx.empty() {
-		c.c.ctx = ctx
-	} else {
-		c.c = &Config{
-			ctx:    ctx,
-			fields: c.c.fields,
-		}
-	}
+	c.c.ctx = ctx
 }
 
 func (c cfgSub) reify(opts *options) (interface{}, error) {
